@@ -315,12 +315,16 @@ func (p *Plan) notationBelow(path string, t types.Type) bool {
 			return true
 		}
 	}
-	// a :skip pattern that matches some field below
+	// a :skip pattern that matches some field below, at any depth
 	if st := structOf(t); st != nil {
 		if _, isPtr := t.(*types.Pointer); !isPtr {
 			for i := 0; i < st.NumFields(); i++ {
 				f := st.Field(i)
-				if p.visibleField(t, f) && p.skipped(joinPath(path, f.Name())) {
+				if !p.visibleField(t, f) {
+					continue
+				}
+				fp := joinPath(path, f.Name())
+				if p.skipped(fp) || byValueStruct(f.Type()) && len(path) < 200 && p.notationBelow(fp, f.Type()) {
 					return true
 				}
 			}
